@@ -288,6 +288,19 @@ ArgSweepFamily(z) ==
   {c \in [prim : STRING, form : {"func"}, s : {<<4>>, <<3>>}, s2 : {<<>>}, s3 : {<<>>}, argnum : 0..2, ax : {NoAx}, kd : {FALSE}, ia : 2..3, ib : {0},
           tp : {<<>>}, st : {"-"}, kind : {"rr"}, scal : {"array"}, oshape : {NA}] : c.argnum < c.ia}
 
+
+\* ---------------------------------------------------------------- the adjoint helper primitives, called directly (C07 / C01 / C02)
+\* each is linear in each of its array arguments and has rules of its own; argnum selects which array argument is differentiated
+HelperFamily(z) ==
+  {Cfg(p, "func", a, b, <<>>, n, NoAx, FALSE, 0, 0, <<>>, "-", "rr", "array", NA) :
+      p \in {"dot_adjoint_0", "dot_adjoint_1"}, a \in {<<3>>, <<2, 3>>, <<3, 2>>, <<2, 2, 3>>, <<>>}, b \in {<<3>>, <<3, 2>>, <<2, 3>>, <<2, 3, 2>>, <<>>}, n \in {0, 1}}
+  \cup {Cfg(p, "func", a, b, <<>>, n, NoAx, FALSE, i, 0, <<>>, "int", "rr", "array", NA) :
+      p \in {"tensordot_adjoint_0", "tensordot_adjoint_1"}, a \in {<<3>>, <<2, 3>>, <<3, 2>>, <<2, 2, 3>>}, b \in {<<3>>, <<3, 2>>, <<2, 3>>, <<2, 3, 2>>}, n \in {0, 1}, i \in 0..2}
+  \cup {Cfg("truncate_pad", "func", a, <<>>, <<>>, 0, NoAx, FALSE, 0, 0, t, "-", k, "array", NA) :
+      a \in {<<3>>, <<2, 3>>, <<4, 2>>}, t \in {<<2>>, <<4>>, <<2, 2>>, <<3, 4>>, <<4, 1>>}, k \in {"rr"}}
+  \cup {Cfg("make_diagonal", "func", a, <<>>, <<>>, 0, NoAx, FALSE, o, 0, t, "-", "rr", "array", NA) :
+      a \in {<<3>>, <<2, 3>>, <<2>>}, o \in {-1, 0, 1}, t \in {<<0, 1>>, <<1, 0>>, <<-1, -2>>, <<0, 2>>, <<-2, -1>>}}
+
 Space == CASE Family = "binary" -> BinaryFamily(0)
            [] Family = "where" -> WhereFamily(0)
            [] Family = "reduce" -> ReduceFamily(0)
@@ -296,6 +309,7 @@ Space == CASE Family = "binary" -> BinaryFamily(0)
            [] Family = "rearr" -> RearrFamily(0)
            [] Family = "join" -> JoinFamily(0)
            [] Family = "kink" -> KinkFamily(0)
+           [] Family = "helper" -> HelperFamily(0)
            [] Family = "argsweep" -> ArgSweepFamily(0)
            [] Family = "linalg" -> LinalgFamily(0)
            [] Family = "fft" -> FftFamily(0)
